@@ -68,7 +68,7 @@ Clause(name, ok, tag, k) == ok \/ PrintT(<<"VIOL", name, k, tag>>)
 \* ---------------------------------------------------------------- ghosts
 G0 == [tr |-> -1, brought |-> 0, taken |-> 0, banks |-> <<>>, bankIds |-> {}, lastGc |-> 0, gids |-> {}, handLive |-> FALSE,
        handIds |-> <<>>, openBank |-> <<>>, openBlind |-> <<>>, openLabels |-> <<>>, lastParts |-> {}, afterBank |-> <<>>, afterIds |-> {},
-       missed |-> <<>>, missedIds |-> {}, ext |-> FALSE, extSetup |-> FALSE, openWin |-> {}, botCalls |-> {}, leavePending |-> {}, awaitFire |-> FALSE, blindSinceFire |-> FALSE, ansIds |-> {}, prevAns |-> {}, earlyAns |-> {}, closedBetween |-> FALSE, lastStatus |-> "none",
+       missed |-> <<>>, missedIds |-> {}, ext |-> FALSE, extSetup |-> FALSE, openWin |-> {}, botCalls |-> {}, leavePending |-> {}, awaitFire |-> FALSE, blindSinceFire |-> FALSE, ansIds |-> {}, prevAns |-> {}, earlyAns |-> {}, heldAnswered |-> FALSE, closedBetween |-> FALSE, lastStatus |-> "none",
        cnt |-> <<>>, cntIds |-> {}, actEvents |-> <<>>, spyCalls |-> <<>>, inGate |-> "", blindSet |-> <<>>, blindSetInGate |-> FALSE,
        leftSince |-> {}, faults |-> 0, lastUpd |-> 0, kfMidLeave |-> FALSE,
        withholdSt |-> <<>>, settledSt |-> <<>>, openSt |-> <<>>, callQ |-> <<>>, pubH |-> <<>>, nospy |-> FALSE, ownTid |-> "", engineHand |-> <<>>, engineStatus |-> "none", lastGcSeen |-> 0, enginePlayers |-> 0, autoFails |-> 0, errEvents |-> 0, afterFire |-> FALSE, fireSt |-> <<>>]
@@ -157,7 +157,7 @@ Upd(gg, k) ==
         THEN [g4 EXCEPT !.kfMidLeave = @ \/ (g4.handLive /\ \E id \in Range(t.a.ids) : id \in Range(g4.handIds)),
                         !.leavePending = Range(t.a.ids)]      \* (the call may have to wait for the engine lock while a hand opens)
         ELSE g4
-      g6 == IF t.ev = "withhold" THEN [g5 EXCEPT !.withholdSt = <<st>>]
+      g6 == IF t.ev = "withhold" THEN [g5 EXCEPT !.withholdSt = <<st>>, !.heldAnswered = (<<t.a.id, t.a.kind>> \in g5.ansIds)]   \* (a repeated answer of an earlier request may already count for this one)
             ELSE IF t.ev = "botcall" /\ t.res = "ok" THEN [g5 EXCEPT !.botCalls = @ \cup {<<t.a.id, t.a.note>>}]
             ELSE g5
       g7 == IF t.ev \in {"q", "end"} THEN [g6 EXCEPT !.settledSt = <<>>] ELSE g6
@@ -435,7 +435,7 @@ C11_askedSets(t, gg) ==
     /\ h.ev = "AnteRequested" => Asked(h, "pay") = 1..Len(h.p)
     /\ h.ev = "BlindsRequested" => Asked(h, "pay") = BlindHolders(h)
 C11_noEarlyAdvance(t, gg) ==
-  (t.ev = "withheld" /\ Len(gg.withholdSt) = 1 /\ t.a.amt < 16000 /\ HasHand(gg.withholdSt[1])) =>
+  (t.ev = "withheld" /\ Len(gg.withholdSt) = 1 /\ t.a.amt < 16000 /\ HasHand(gg.withholdSt[1]) /\ ~gg.heldAnswered) =>
     HasHand(t.st) /\ H(t.st).upd = H(gg.withholdSt[1]).upd /\ H(t.st).ev = H(gg.withholdSt[1]).ev
 \* the driver gave up waiting although every asked player had answered / a produced hand state was never handled
 HandStall(t) == t.ev = "idle" \/ (t.ev = "stuck" /\ t.a.kind = "hand")
